@@ -21,7 +21,7 @@ CONSTANTS MaxLen, Emit
 SymHash(m) == <<"H", m>>
 
 Kinds == {"good", "replayAcc", "replayRej", "replayAccFirst", "replayRejFirst", "stale", "wrongK", "wrongU",
-          "flipProof", "flipData", "garbage", "truncProof", "reflect"}
+          "flipProof", "flipData", "garbage", "truncProof", "reflect", "regroupProof"}
 
 VARIABLES ctr,       \* nonce counter (all draws)
           hist,      \* attempt kinds so far
@@ -64,6 +64,7 @@ Attempt(k) ==
          [] k = "flipData"  -> << <<200 + ctr, 0>>, good>>
          [] k = "garbage"   -> <<cd, <<"junk", ctr>> >>
          [] k = "reflect"   -> <<s.chal, ReconnectProof(s.U, s.chal, s.chal, s.K)>>   \* client data = the server's challenge
+         [] k = "regroupProof" -> <<cd, <<"regrouped", good>> >>   \* digits of neighbouring bytes / words regrouped
          [] k = "truncProof" -> <<cd, <<"trunc", good>> >>      \* a prefix of the good proof, the rest zeroed
 
 Try(k) ==
